@@ -230,7 +230,7 @@ func clipS(s string, n int) string {
 func init() {
 	register(&Check{
 		ID: "C03", Bubble: true, Run: runC03,
-		Runs:   map[string]int{"quick": 6000, "thorough": 400000},
+		Runs:   map[string]int{"quick": 40000, "thorough": 1500000},
 		Rule:   "a case is one (pipeline, delivery schedule) pair: 1..12 (thorough 1..40) requests over all 67 commands with valid/ill-formed/unknown shapes, swarm-chosen chunking (whole, single bytes, random, structural), batching (lock-step, pipelined, mixed) and handler-error rate; distinct = distinct (config, chunk-size-bucket sequence) signatures; non-trivial = chunked or pipelined delivery",
 		Real:   []string{"redis.Server connection loop (receive via VerifServeConn), dispatch, executors, redis/proto parser and serializer"},
 		Stub:   []string{"transport: simulated net.Conn", "handler: recording double with injected errors"},
